@@ -22,6 +22,33 @@ func (a *Act) instr(st *State, b *ssa.BasicBlock, instr ssa.Instruction) {
 	}
 	a.cur = st
 	a.curBlock = b
+	if a.contract != nil && len(a.contract.atAsserts) > 0 && instr.Pos().IsValid() && a.parent == nil {
+		pp := tr.eng.fset.Position(instr.Pos())
+		_, src := a.srcLine(instr.Pos())
+		ns := normSrc(src)
+		for _, aa := range a.contract.atAsserts {
+			if aa.src != ns {
+				continue
+			}
+			if _, isDbg := instr.(*ssa.DebugRef); isDbg {
+				continue
+			}
+			if aa.occ > 0 && a.occurrenceOf(pp.Filename, pp.Line, ns) != aa.occ {
+				continue
+			}
+			key := fmt.Sprintf("assert/%p/%s/%d/%d", a, aa.src, aa.occ, pp.Line)
+			if !tr.atDone[key] {
+				tr.atDone[key] = true
+				e := &specEnv{a: a, tr: tr, pkg: a.contract.pkg, st: st, old: a.entryState, vars: map[string]specVal{}, errs: &tr.specErrs, preferLocals: true}
+				g := e.evalBool(aa.cl.expr)
+				fname := fnName(a.fn)
+				base := fmt.Sprintf("%s/assert/«%s»@«%s»", fname, normSrc(aa.cl.text), aa.src)
+				tr.oblCount[base]++
+				loc, _ := a.srcLine(instr.Pos())
+				tr.obls = append(tr.obls, &Obligation{Name: fmt.Sprintf("%s#%d", base, tr.oblCount[base]), Kind: "assert", Fn: fname, Pos: loc, Src: aa.cl.text, Guard: st.reach, Goal: g})
+			}
+		}
+	}
 	if a.contract != nil && len(a.contract.atAssumes) > 0 && instr.Pos().IsValid() {
 		pp := tr.eng.fset.Position(instr.Pos())
 		_, src := a.srcLine(instr.Pos())
